@@ -73,7 +73,7 @@ def run(tier, seed, replay_file):
     if "StreamProbeError" in k:
         raise vlib.Broken("vconst could not probe the stream constants: " + k["StreamProbeError"])
     big = tier == "thorough"
-    per, par = stream.budget()
+    per, par = stream.budget(big)
     tot = dict(states=0, transitions=0, behaviours=0, steps=0, variants=0, distinct=0)
     detail = {}
     conc = dict(FlipAll=big, FlipSample=8 if not big else 64, CutAll=big, CutSample=12, MaxVariant=0)
